@@ -19,7 +19,7 @@
             (3 value type)                  -> (has_ty)                                               C34 judge
             (4 typeA typeB)                 -> (A<:B B<:A)
             (5 prog)                        -> (lax_ok strict_ok known_pow known_ifarith)
-            (6 strict prog x)               -> (class)  known_c34 of the defining expression of top-level binding x
+            (6 prog x)                      -> (class)  known_c34 of top-level binding x
             (7 accepted executed)           -> (judge_c05)
             (8 class)                       -> (judge_c02)  class: 0 none 4 TypeError 5 wrapper ValueError 7 NameError
                                                             8 AttributeError, other codes = legitimate errors (err_code) *)
@@ -219,14 +219,6 @@ Definition bindings (s : state) : sx :=
                     | None => SL [SZ (fst b)]
                     end) (rev (s_G s))).
 
-(* defining expression of the last top-level definition of x *)
-Fixpoint def_of (x : Z) (p : prog) (acc : option tm) : option tm :=
-  match p with
-  | [] => acc
-  | TDef y _ e :: r => def_of x r (if x =? y then Some e else acc)
-  | _ :: r => def_of x r acc
-  end.
-
 Definition bad : sx := SL [SZ (-997)].
 
 Definition run (x : sx) : sx :=
@@ -282,7 +274,7 @@ Definition run (x : sx) : sx :=
                              else EUnmodelled)))]
   | SL [SZ 6; p; SZ x] =>
     match dec_prog p with
-    | Some pr => match def_of x pr None with Some e => SL [SZ (known_c34 e)] | None => SL [SZ 0] end
+    | Some pr => SL [SZ (known_c34 pr x)]
     | None => bad
     end
   | _ => bad
